@@ -4,8 +4,9 @@ import common, extract
 import oracle_rewrite as orc
 import c11_driver as drv
 import c11_sums as sums
+import c11_sites as sites
 
-LEAN_MODULE = ["ESRVerif.Props.C11", "ESRVerif.Props.C11b"]
+LEAN_MODULE = ["ESRVerif.Props.C11", "ESRVerif.Props.C11b", "ESRVerif.Props.C11c"]
 LEVEL = "other"
 LEVEL_TEXT = ("Machine-checked validator: Lean theorem certEquiv_sound (all real evaluation points, unbounded in the tree) says that a pair of "
               "label lists accepted by the executable checker certEquiv is a well-formed rewritten tree denoting the same real function as "
@@ -15,6 +16,15 @@ LEVEL_TEXT = ("Machine-checked validator: Lean theorem certEquiv_sound (all real
               "while the quantifier over evaluation points is universal. update_tree is additionally modelled in full at list level (detection loops "
               "over the regenerated pow_num/exp_ord tables and all output splices), compared with the real function on every call the real driver makes, "
               "and proved to remove a pow-set label on every rewrite (updateTree_decreases, driver_phase1_bounded). "
+              "Candidate selection of update_tree (Props/C11c): the five parallel lists special_idx/diff1_idx/diff2_idx/num1/num2 are modelled statement by statement "
+              "(UT.detectPar) and PROVED to be the columns of the record list the model splices from (detectPar_eq_specials, parallel_lists_aligned: row k of every list "
+              "belongs to the same site; candidate_from_its_site: its run lengths and numbers are the ones detected AT special_idx[k], sites strictly increasing), the "
+              "parallel-list spelling of the whole function equals the record model (updateTreePar_eq_updateTree), the result at try_idx k is a function of candidate k alone "
+              "(updateTree_candidate_local, selectOut_local, selectOut_filter) and the decrease / valid-shape theorems hold at every try index (updateTree_all_try_indices). "
+              "Tied to the code by a structure-directed phase (harness/c11_sites.py): every ordered pair of site kinds (log_abs+run, run+exp, log_abs+run+exp, pow_abs with runs "
+              "on both sides) x run lengths 1..3 under every subset of the optional binary operators, classes of folded numbers rotating through all pairs, plus PRNG triples; "
+              "the REAL update_tree is called at EVERY try index with its five candidate lists captured at return (sys.monitoring) and compared with the model's lists, with an "
+              "independent re-derivation of the sites, and its result with the model; every returned tree is certified / evaluated, and the real driver is run on the same trees. "
               "The fixed-point driver find_additional_trees is modelled as written over abstract rewriters and an abstract cross-check oracle "
               "(Props/C11b: driver_outputs_from_rewriters, driver_phase_order, driver_no_duplicates, driver_terminates within |U|+1 passes per loop when the reachable "
               "label lists lie in a finite list U, phase1_terminates_updateTree with U computed from powCount) and compared with the REAL driver running over "
@@ -24,13 +34,17 @@ LEVEL_TEXT = ("Machine-checked validator: Lean theorem certEquiv_sound (all real
               "grow a tree by 2(m-2) labels); termination of phase 2 on real trees is observed through the per-tree time bound.")
 TECHNIQUE = ("Lean 4 proof of a certificate checker (normalisation by proved-sound steps over Mathlib's reals) + regenerated pow_num/exp_ord tables "
              "+ Lean models of update_tree, update_sums and of the fixed-point driver with invariants/termination proofs + exhaustive/sampled runs of the "
-             "real rewriter through the checker and an independent numeric oracle + the real driver over PRNG-scripted rewriters")
+             "real rewriter through the checker and an independent numeric oracle + the real driver over PRNG-scripted rewriters "
+             "+ proved alignment of update_tree's parallel candidate lists, tied by structure-directed multi-site trees driving the real update_tree at every try index "
+             "(candidate lists captured with sys.monitoring)")
 RULE = ("one evaluation = one (original tree, basis) run of the real find_additional_trees plus one per emitted extra tree, or one scripted run of the real driver; "
         "non-trivial = the run emitted at least one extra tree; distinct by (labels, basis) / by script. quick: every tree with n<=5 over the six shipped bases "
         "(n<=6 for the four shipped bases with at most 12000 trees at n=6) "
         "and over the fixed + PRNG user-style bases (n<=4 for user bases with more than 1500 trees at n=5), plus 2500 PRNG-sampled trees at n=6,7, 400 driver scripts, "
-        "2500 synthetic update_sums trees x 3 try indices; "
-        "thorough: every tree n<=6 (shipped) / n<=5 or 6 (user) plus 30000 PRNG-sampled trees at each of n=7,8,9, 4000 driver scripts, 30000 synthetic update_sums trees")
+        "2500 synthetic update_sums trees x 3 try indices, and the site-directed trees (one per ordered pair of 9 site kinds x lengths and per subset of {-,/,pow}, "
+        "+ pow_abs patterns + 120 triples, about 900 trees of 5-20 labels): one evaluation per direct update_tree call (every try index up to one past the last candidate) "
+        "and per driver run; "
+        "thorough: 5 site-directed trees per pair and pattern + 2500 triples; every tree n<=6 (shipped) / n<=5 or 6 (user) plus 30000 PRNG-sampled trees at each of n=7,8,9, 4000 driver scripts, 30000 synthetic update_sums trees")
 EXPLANATION = LEVEL_TEXT
 TRUSTED = ["Mathlib v4.33 reals: Real.exp/log/rpow/sqrt",
            "ESR operator semantics as written in Proofs/Rewrite.lean (inv u=1/u, sqrt_abs u=sqrt|u|, log_abs u=log|u|, pow(u,v)=|u|^v; from esr/fitting/sympy_symbols.py)",
@@ -38,6 +52,9 @@ TRUSTED = ["Mathlib v4.33 reals: Real.exp/log/rpow/sqrt",
            "harness/oracle_rewrite.py (independent parser/evaluator, float + 60/120-digit mpmath)",
            "hand model UT.updateTree of update_tree in ESRVerif/Model/Rewrite.lean (subtree ends by slot counting instead of parent pointers; tied by "
            "correspondence on every real call)",
+           "hand model UT.detectPar / UT.updateTreePar of the five parallel candidate lists (generator.py l.601-694), proved equal to the record model; tied by the captured "
+           "lists of every site-directed call (op rwcand) and by rwutp on the same calls",
+           "harness/c11_sites.py (site generator + independent re-derivation of the candidate table)",
            "hand model US.updateSums of update_sums in ESRVerif/Model/RewriteSums.lean (same pointer reading, guarded by an evaluated precondition; tied by "
            "correspondence on every real call + synthetic calls; answers `unported` are counted in the evidence)",
            "hand model Drv.findAdditional of find_additional_trees in ESRVerif/Model/RewriteDriver.lean (three parallel lists as one list of entries; a tree = its shape; "
@@ -47,6 +64,10 @@ ASSUMPTIONS = ["equality is claimed at points where both trees are defined (Lean
                "trees beyond the exhaustive bound are PRNG-sampled; a numerically equal but uncertified pair beyond the quick bound is recorded as "
                "uncertified_sampled in the evidence and does not fail the run; within the quick bound it is reported as an incompleteness of the validator",
                "bases with the label pow_abs are outside the property's quantifier (binary operators from + * - / pow): explored, observations recorded, never a violation",
+               "direct update_tree calls at try indices the driver does not reach on that tree are judged like driver outputs (the property names the rewriting step); "
+               "a nested single-candidate result over a basis without '-' (known finding F13) is not judged directly: the driver run on the same tree reports it under F13",
+               "the captured candidate lists are compared only when the function still has the five list locals special_idx, diff1_idx, diff2_idx, num1, num2 "
+               "(otherwise counted as candidate_tables_unreadable; results are compared regardless)",
                "termination: driver_terminates needs the reachable label lists to lie in a finite list U (hypothesis hU). For phase 1 over the update_tree model U is computed "
                "(phase1_terminates_updateTree; its hypothesis Consistent is evaluated on every real update_tree call). For phase 2 hU is NOT proved "
                "(updateSums_sizes_bounded_partial is a per-step bound); on real trees termination of the whole driver = the real driver returns within the per-tree time bound",
@@ -395,6 +416,211 @@ def anchored_lines(stage):
     return lines
 
 
+# ---- structure-directed phase: trees built from pairs/triples of rewrite sites (harness/c11_sites.py) ---------------
+
+_CAND = ("special_idx", "diff1_idx", "diff2_idx", "num1", "num2")
+
+
+class Capture(object):
+    """copies the five candidate lists of the real update_tree whenever one of its frames returns
+    (sys.monitoring PY_RETURN restricted to that one code object: no cost elsewhere; sys.settrace as fallback)"""
+
+    def __init__(self, fn):
+        self.fn = fn
+        self.code = fn.__code__
+        self.cap = {}
+        self.mon = getattr(sys, "monitoring", None)
+        self.tool = None
+        if self.mon is not None:
+            for t in (1, 2, 5):
+                try:
+                    self.mon.use_tool_id(t, "c11cand")
+                    self.tool = t
+                    break
+                except ValueError:
+                    continue
+        if self.tool is not None:
+            self.mon.register_callback(self.tool, self.mon.events.PY_RETURN, self._ret)
+            self.mon.set_local_events(self.tool, self.code, self.mon.events.PY_RETURN)
+
+    def _grab(self, frame):
+        loc = frame.f_locals
+        for nm in _CAND:
+            if isinstance(loc.get(nm), list):
+                self.cap[nm] = list(loc[nm])
+
+    def _ret(self, code, offset, retval):
+        if code is self.code:
+            self._grab(sys._getframe(1))
+
+    def close(self):
+        if self.tool is not None:
+            try:
+                self.mon.set_local_events(self.tool, self.code, 0)
+                self.mon.register_callback(self.tool, self.mon.events.PY_RETURN, None)
+                self.mon.free_tool_id(self.tool)
+            except Exception:
+                pass
+            self.tool = None
+
+    def call(self, tree, labels, k, b):
+        """-> (canon result | 'err', {name: list} possibly incomplete)"""
+        self.cap = {}
+        if self.tool is not None:
+            try:
+                return canon_ut(self.fn(tree, labels, k, b)), self.cap
+            except Exception:
+                return "err", self.cap
+        me = self
+
+        def local(frame, event, arg):
+            if event == "return":
+                me._grab(frame)
+            return local
+
+        def tracer(frame, event, arg):
+            if event == "call" and frame.f_code is me.code:
+                frame.f_trace_lines = False
+                return local
+            return None
+        old = sys.gettrace()
+        sys.settrace(tracer)
+        try:
+            try:
+                res = canon_ut(self.fn(tree, labels, k, b))
+            except Exception:
+                res = "err"
+        finally:
+            sys.settrace(old)
+        return res, self.cap
+
+
+def canon_tab(cap):
+    """the captured lists in the spelling of the model's `rwcand`; None if the function no longer has those five lists"""
+    if any(nm not in cap for nm in _CAND):
+        return None
+    try:
+        ns = lambda xs: ",".join(str(int(z)) for z in xs) or "_"
+        nm = lambda xs: ",".join("None" if z is None else str(z) for z in xs) or "_"
+        return "special=%s diff1=%s diff2=%s num1=%s num2=%s" % (ns(cap["special_idx"]), ns(cap["diff1_idx"]), ns(cap["diff2_idx"]),
+                                                              nm(cap["num1"]), nm(cap["num2"]))
+    except Exception:
+        return None
+
+
+def tab_of_rows(rows):
+    ns = lambda xs: ",".join(str(int(z)) for z in xs) or "_"
+    nm = lambda xs: ",".join("None" if z is None else str(z) for z in xs) or "_"
+    return "special=%s diff1=%s diff2=%s num1=%s num2=%s" % (ns([r["special"] for r in rows]), ns([r["diff1"] for r in rows]),
+                                                          ns([r["diff2"] for r in rows]), nm([r["num1"] for r in rows]), nm([r["num2"] for r in rows]))
+
+
+def _ut_candidates(real):
+    """label lists of a canon_ut string"""
+    if real.startswith("one "):
+        return [real.split(" ")[1].split(",")]
+    if real.startswith("many "):
+        return [c.split(":")[0].split(",") for c in real.split(" ", 1)[1].split("?")[0].split(";")]
+    return []
+
+
+def _sites(ctx, acc, rec, deep, tlimit):
+    """every ordered pair of site kinds x run lengths under every pattern of optional binary operators (+ PRNG triples):
+    the real update_tree at EVERY try index (candidate lists captured) vs the model's candidate table and result,
+    every emitted tree judged; then the real driver on the same tree (through _explore)"""
+    import numpy as np
+    from extractors import rewrite as rx
+    from esr.generation import generator as g
+    st = dict(cases=0, in_quantifier=0, direct_calls=0, direct_rewrites=0, candidate_tables_compared=0, candidate_tables_unreadable=0,
+              table_mismatches=0, misaligned_tables=0, parallel_vs_record_model_mismatches=0, result_mismatches=0,
+              f13_nested_results_not_judged=0, by_sites={}, by_tag={}, basis_patterns=0, max_try_idx=0)
+    try:
+        tb = rx.tables(ctx.stage)
+    except Exception as e:
+        ctx.disagree("extract:Rewrite-tables", "the pow/exp tables of update_tree could not be read for the site generator: %r" % (e,))
+        return st
+    C = sites.cases(ctx.rng, tb, 5 if deep else 1, 2500 if deep else 120)
+    st["basis_patterns"] = len(set(tuple(sorted(c["basis"][2])) for c in C))
+    capt = Capture(rec.orig)
+    todo = []            # (case, k, real result, real table, independent table)
+    t0 = time.time()
+    for c in C:
+        labels, b = c["labels"], c["basis"]
+        tree = g.check_tree(np.array(c["shape"], dtype=int))[2]
+        st["cases"] += 1
+        st["in_quantifier"] += int(c["in_quant"])
+        st["by_sites"][str(c["nsites"])] = st["by_sites"].get(str(c["nsites"]), 0) + 1
+        tg = c["tag"].split(":")[0] + ":" + ",".join(z.rstrip("0123456789+") for z in c["tag"].split(":")[1].split(","))
+        st["by_tag"][tg] = st["by_tag"].get(tg, 0) + 1
+        ind = tab_of_rows(sites.site_table(labels, tb))
+        k, top = 0, c["nsites"]
+        while k <= top and k <= 12:
+            real, cap = capt.call(tree, list(labels), k, b)
+            tab = canon_tab(cap)
+            if "special_idx" in cap:
+                top = max(top, len(cap["special_idx"]))
+            st["direct_calls"] += 1
+            st["max_try_idx"] = max(st["max_try_idx"], k)
+            key = (tuple(labels), "".join(str(a) for a in c["shape"]), k, _csv(b[1]), _csv(b[2]))
+            if key not in rec.calls:
+                rec.calls[key] = real                      # also compared through `rwut` in _corr_update_tree
+            todo.append((c, k, real, tab, ind))
+            cands = _ut_candidates(real)
+            ctx.case(("ut", tuple(labels), bkey(b), k), nontrivial=bool(cands), n=1)
+            if real.startswith("many ") and "-" not in b[2]:
+                st["f13_nested_results_not_judged"] += 1   # known finding F13 (nested single candidate; the driver run below reports it)
+            else:
+                for L in cands:
+                    st["direct_rewrites"] += 1
+                    acc.pairs.append((len(labels), "sites", b, list(labels), L, c["in_quant"], False, k))
+            k += 1
+    capt.close()
+    st["direct_wall_s"] = round(time.time() - t0, 1)
+    t0 = time.time()
+    for c in C:
+        tree = g.check_tree(np.array(c["shape"], dtype=int))[2]
+        _explore(ctx, acc, "sites", c["basis"], len(c["labels"]), [(tree, list(c["labels"]))], c["in_quant"], False, tlimit)
+    st["driver_wall_s"] = round(time.time() - t0, 1)
+    # correspondence: candidate table (five parallel lists) and the parallel-list spelling of the result
+    seen_tab = {}
+    for c, k, real, tab, ind in todo:
+        if k == 0:
+            if tab is None:
+                st["candidate_tables_unreadable"] += 1
+            else:
+                if tab != ind:
+                    st["misaligned_tables"] += 1
+                    ctx.disagree("corr:update_tree-candidate-lists-aligned",
+                                 "update_tree(%s, basis=%s): the five candidate lists at return are %s; the sites of the label list give %s "
+                                 "(row k of every list must describe the k-th site)" % (c["labels"], c["basis"], tab, ind))
+        elif tab is not None and tab != seen_tab.get(id(c), tab):
+            ctx.disagree("corr:update_tree-candidate-lists-depend-on-try-idx", "update_tree(%s): candidate lists %s at try_idx %d, %s at 0" % (c["labels"], tab, k, seen_tab[id(c)]))
+        if k == 0 and tab is not None:
+            seen_tab[id(c)] = tab
+    if _model_ok(ctx):
+        ops1 = ["rwcand %s" % ",".join(c["labels"]) for c, k, _, _, _ in todo if k == 0]
+        ops2 = ["rwutp %s %s %s %s %d" % (_csv(c["basis"][1]), _csv(c["basis"][2]), ",".join(c["labels"]), "".join(str(a) for a in c["shape"]), k)
+                for c, k, _, _, _ in todo]
+        out = common.model(ops1 + ops2)
+        m1 = dict(zip(ops1, out[:len(ops1)]))
+        for (c, k, real, tab, ind), o, m in zip(todo, ops2, out[len(ops1):]):
+            if k == 0 and tab is not None:
+                st["candidate_tables_compared"] += 1
+                mt = m1["rwcand %s" % ",".join(c["labels"])]
+                if mt != tab:
+                    st["table_mismatches"] += 1
+                    ctx.disagree("corr:update_tree-candidates", "update_tree(%s, basis=%s): candidate lists of the code %s, of the model %s" % (c["labels"], c["basis"], tab, mt))
+            if m != real:
+                st["result_mismatches"] += 1
+                ctx.disagree("corr:update_tree", "%s: code=%s model(parallel lists)=%s" % (o, real[:200], m[:200]))
+        if todo:
+            c, k, real, tab, ind = todo[len(todo) // 3]
+            ctx.sample(dict(op="rwcand %s" % ",".join(c["labels"]), code=tab, model=m1.get("rwcand %s" % ",".join(c["labels"]))))
+    else:
+        st["table_mismatches"] = -1
+    return st
+
+
 # ---- the check ----------------------------------------------------------------------------------------------------
 
 class Acc(object):
@@ -462,7 +688,7 @@ def _judge(ctx, acc):
         ctx.disagree("lean:model-unavailable", "the executable model did not build from the current source (see lean log); "
                                                "pairs are judged by the numeric oracle only")
     ops, idx = [], []
-    for i, (n, name, b, labels, L, inq, inb) in enumerate(acc.pairs):
+    for i, (n, name, b, labels, L, inq, inb) in enumerate(p[:7] for p in acc.pairs):
         if _flat(L) and L and all(("," not in z and " " not in z and z != "") for z in L):
             ops.append("rwcert %s %s %s %s" % (_csv(b[1]), _csv(b[2]), ",".join(labels), ",".join(L)))
             idx.append(i)
@@ -473,11 +699,16 @@ def _judge(ctx, acc):
             lean[i] = o
     stats = dict(unsound=0, parse_mismatch=0)
     unc_samples = []
-    for i, (n, name, b, labels, L, inq, inb) in enumerate(acc.pairs):
+    for i, p in enumerate(acc.pairs):
+        n, name, b, labels, L, inq, inb = p[:7]
+        tk = p[7] if len(p) > 7 else None          # try index of a direct update_tree call (None: emitted by the driver)
         st = acc.per_n.setdefault(n, dict(pairs=0, certified=0, numerically_equal=0, uncertified=0, no_common_finite_point=0, defined_one_side_only=0))
         st["pairs"] += 1
         rp = dict(kind="tree", labels=labels, basis=b, extra=L if _flat(L) else repr(L), tlimit=60)
         tag = "%s->%s@%s" % (",".join(labels), ",".join(L) if _flat(L) else "nonflat", bkey(b))
+        if tk is not None:
+            rp = dict(kind="ut", labels=labels, basis=b, try_idx=tk, extra=L)
+            tag = "update_tree[try_idx=%d]:%s" % (tk, tag)
         ok, why = orc.well_formed(L, b)
         lo = lean.get(i, "bad-b") if have_model else ("skip" if ok else "bad-b")
         if lo == "bad-a":
@@ -487,7 +718,8 @@ def _judge(ctx, acc):
             ctx.disagree("corr:wellformed", "oracle says %s, Lean parser says %s for %s over %s" % (ok, lo, L, b))
         if not ok:
             _report(ctx, inq, "malformed:" + tag,
-                    "rewritten tree %r of %s over basis %s is not a well-formed prefix tree over basis+{x,a_k,integers}: %s" % (L, labels, b, why), rp)
+                    "rewritten tree %r of %s over basis %s%s is not a well-formed prefix tree over basis+{x,a_k,integers}: %s" % (
+                        L, labels, b, "" if tk is None else " (update_tree at try_idx %d)" % tk, why), rp)
             continue
         names = orc.params(labels) + [p for p in orc.params(L) if p not in labels]
         cmp_ = orc.compare(orc.parse(labels, b), orc.parse(L, b), orc.points(ctx.rng, names))
@@ -496,7 +728,8 @@ def _judge(ctx, acc):
         if not cmp_["equal"]:
             w = cmp_["witness"]
             _report(ctx, inq, "neq:" + tag,
-                    "rewritten tree %s differs from its original %s over basis %s: at %s original=%r rewritten=%r" % (L, labels, b, w["env"], w["a"], w["b"]), rp)
+                    "rewritten tree %s differs from its original %s over basis %s%s: at %s original=%r rewritten=%r" % (
+                        L, labels, b, "" if tk is None else " (update_tree at try_idx %d)" % tk, w["env"], w["a"], w["b"]), rp)
             if lo == "1":
                 stats["unsound"] += 1
                 ctx.disagree("certEquiv:certified-but-numerically-different", dict(a=labels, b=L, basis=b, witness=w))
@@ -616,6 +849,8 @@ def run(ctx):
             for name, b in shipped + user:
                 _explore(ctx, acc, name, b, n, sample_trees(ctx.rng, n, b, max(1, nsamp // len(shipped + user))), True, False, tlimit)
         t_all = time.time() - t0
+        site_stats = _sites(ctx, acc, rec, deep, 20 if deep else 10)
+        t_sites = time.time() - t0 - t_all
     finally:
         rec2.remove()
         rec.remove()
@@ -647,14 +882,18 @@ def run(ctx):
         miss = sorted(anch - _COV)
         ctx.extra["anchored_lines"] = dict(total=len(anch), executed=len(anch & _COV), never_executed=miss[:400])
     inb = [p for p in acc.pairs if p[6] and p[5]]
-    ctx.extra["corr_obligations"] = 9
+    ctx.extra["site_directed"] = site_stats
+    ctx.extra["real_rewriter_wall_s"]["site_directed"] = round(t_sites, 1)
+    ctx.extra["corr_obligations"] = 11
     ctx.extra["corr_discharged"] = (int(not any(d["name"] == "certEquiv:incomplete" for d in ctx.disagreements))
                                     + int(stats["parse_mismatch"] == 0 and badmal == 0)
                                     + int(stats["unsound"] == 0) + int(badut == 0) + int(nodrop == 0)
                                     + int(drv_stats["mismatches"] == 0 and drv_stats["scripts"] > 0)
                                     + int(us_stats["real"]["mismatches"] == 0 and us_stats["real"]["compared"] > 0)
                                     + int(us_stats["synthetic"]["mismatches"] == 0 and us_stats["synthetic"]["compared"] > 0)
-                                    + int(nodup_bad == 0))
+                                    + int(nodup_bad == 0)
+                                    + int(site_stats["table_mismatches"] == 0 and site_stats["candidate_tables_compared"] > 0)
+                                    + int(site_stats["misaligned_tables"] == 0 and site_stats["result_mismatches"] == 0 and site_stats["direct_calls"] > 0))
     ctx.extra["driver_model"] = drv_stats
     ctx.extra["update_sums_model"] = us_stats
     ctx.extra["correspondence"] = dict(pairs_in_quick_bound=len(inb), parser_mismatches=stats["parse_mismatch"] + badmal,
@@ -703,6 +942,8 @@ def replay(ctx, data):
             print("  %s: %s" % (key, what))
         return not bad
     labels, b = rp["labels"], rp["basis"]
+    if rp.get("kind") == "ut":
+        return _replay_ut(rp)
     try:
         ta = orc.parse(labels, b)
     except orc.Malformed as e:
@@ -735,3 +976,32 @@ def _walk(t):
     for c in t[1:]:
         for z in _walk(c):
             yield z
+
+
+def _replay_ut(rp):
+    """one direct call of the real update_tree at a given try index; every returned tree judged by the oracle"""
+    import numpy as np, random
+    from esr.generation import generator as g
+    labels, b, k = rp["labels"], rp["basis"], int(rp["try_idx"])
+    shape = sites.shape_of(labels, b)
+    tree = g.check_tree(np.array(shape, dtype=int))[2]
+    capt = Capture(g.update_tree)
+    real, cap = capt.call(tree, list(labels), k, b)
+    capt.close()
+    print("update_tree(%s, try_idx=%d, basis=%s)" % (labels, k, b))
+    print("  candidate lists at return: %s" % (canon_tab(cap),))
+    print("  result: %s   (recorded at check time: %s)" % (real, rp.get("extra")))
+    if real == "err":
+        print("  raises"); return False
+    ta = orc.parse(labels, b)
+    rng = random.Random(12345)
+    good = True
+    for L in _ut_candidates(real):
+        ok, why = orc.well_formed(L, b)
+        if not ok:
+            print("  returned %r: MALFORMED (%s)" % (L, why)); good = False; continue
+        names = orc.params(labels) + [p for p in orc.params(L) if p not in labels]
+        c = orc.compare(ta, orc.parse(L, b), orc.points(rng, names))
+        print("  returned %s: %s" % (L, "equal at %d points" % c["n_both"] if c["equal"] else "DIFFERS %s" % (c["witness"],)))
+        good = good and c["equal"]
+    return good
